@@ -200,6 +200,9 @@ async def run_program(chk, rng, lines, impl, big=False):
         trace.append(tok)
         lines.append("conn cmd %d %s" % (1 if dep else 0, tok))
         impl.append(await d.command(cls if cls != "none" else "simple", payload, ncols, plan))
+        if "?" in impl[-1].split(" ")[0]:
+            # the strict client-side decoder could not place a packet / a field of it (reserved byte, status word, counters)
+            chk.fail("a packet of the response is not well-formed for a standard client", dict(command=tok, deprecate_eof=dep), impl[-1][:200])
         guard = 0
         while d.sess.pending and not d.peer.done() and guard < 2000:
             lines.append("conn resume")
